@@ -25,7 +25,8 @@ From Coq Require Import NArith List Bool.
 Import ListNotations.
 From HV Require Import lib.Harness model.Validity model.Builder spec.BuilderS proofs.BuilderP proofs.BuilderExtP
   spec.BuilderWFS proofs.BuilderFrameP proofs.BuilderRulesP proofs.BuilderTypeP
-  proofs.BuilderAcyclicP proofs.BuilderNonLocalP proofs.BuilderInputsP proofs.BuilderLinearP proofs.BuilderCopyP.
+  proofs.BuilderAcyclicP proofs.BuilderNonLocalP proofs.BuilderInputsP proofs.BuilderLinearP proofs.BuilderCopyP
+  model.Builder2 proofs.Builder2EmbP.
 
 (* Proved for ALL programs of the modelled language, with no well-formedness premise: whenever the
    builder calls do not raise, the serialised document satisfies
@@ -174,3 +175,23 @@ Print Assumptions C01_builder_valid.
 Theorem C01_wf_premises_example : wf_prog ex2_tys ex2_prog = true /\ r_table ex2_tys = true.
 Proof. exact ex2_wf. Qed.
 Print Assumptions C01_wf_premises_example.
+
+(* ==================================================================== third pass: the extended builder language
+   model/Builder2.v widens the statement language by TailLoop (add_tail_loop ... set_loop_outputs), Conditional
+   (add_conditional / add_case in any order / add_if + add_else), every insert_* variant through
+   _insert_nested_impl + Hugr.insert_hugr (a separately built Dfg / TailLoop / Conditional program), CallIndirect,
+   and the roots TailLoop(...) and Conditional(...).  `run2` is its interpreter.  Builder.v and every theorem above
+   are unchanged. *)
+
+(* the extended model is conservative: the embedding of a program of the first language runs to the same result
+   (the same document or the same error), for every program and every type table *)
+Theorem C01_builder2_conservative : forall tys p, run2 tys (emb p) = run tys p.
+Proof. exact run2_emb. Qed.
+Print Assumptions C01_builder2_conservative.
+
+(* so all theorems above transfer to run2 on embedded programs; the full validity theorem restated: *)
+Theorem C01_builder2_valid_embedded : forall tys p g,
+  r_table tys = true -> wf_prog tys p = true -> run2 tys (emb p) = Ok g ->
+  valid {| v_tys := tys; v_main := g; v_subs := [] |} = true.
+Proof. exact run2_emb_valid. Qed.
+Print Assumptions C01_builder2_valid_embedded.
